@@ -10,7 +10,7 @@ from ..worlds import ImplWorld, RefWorld, facts_impl, facts_ref
 
 ID = 'C13'
 LEVEL = 'model_checking'
-RULE = ('(v) values of every kind: a variable bound to each of 13 values (atoms, compounds, lists, Python constants incl. 0, the empty string, None, (), 0.0) and to compounds NAMED like conventional variable placeholders / internal markers and like every short string literal of the engine source reaches assert_fact / assertz / asserta directly, inside a structure, through an alias chain, as list element, as list tail, twice, next to unbound variables; after the binding is undone the fact holds exactly that value. (s) every ordered selection of <= K of the binding operations {X = f(Y), Y = a, X = Y, Y = g(Z), Z = b} with one '
+RULE = ('(lives) the same variable objects asserted again after clear() or into a second engine, after 0..2 other assertions in each life, in 5 shapes: two simultaneous uses of the second fact are independent; (v) values of every kind: a variable bound to each of 13 values (atoms, compounds, lists, Python constants incl. 0, the empty string, None, (), 0.0) and to compounds NAMED like conventional variable placeholders / internal markers and like every short string literal of the engine source reaches assert_fact / assertz / asserta directly, inside a structure, through an alias chain, as list element, as list tail, twice, next to unbound variables; after the binding is undone the fact holds exactly that value. (s) every ordered selection of <= K of the binding operations {X = f(Y), Y = a, X = Y, Y = g(Z), Z = b} with one '
         'assertz of p(X) / p(f(Y)) / p(_) / p(g(X,Y)) / p(g(Y,Y)) (one variable twice) inserted at every position (variables bound before, after, through '
         'a chain, inside a structure), the asserting clause continuing with true / a use p(W) of the fact / fail, run '
         'to exhaustion or abandoned after its first answer; followed by every later use alone, and by every pair (one of 4 uses, then one of 4 probing uses), from {p(a), '
@@ -369,7 +369,72 @@ def check_value(val, shape, via):
     return None
 
 
+# ---- the same variable objects asserted in two engine lives -------------------------------------------
+# The caller's variable objects outlive an engine's store: the same objects are asserted again after clear(),
+# or into another engine, after 0..2 other assertions in each life.  The second fact is a fact like any other:
+# two uses of it at the same time are instantiated independently, and it reads back with variables of its own.
+LIFE_SHAPES = ['q(X)', 'q(f(X))', 'q(X,X)', 'q([X|Y])', 'q(X,Y)']
+
+
+def check_lives(shape, mode, n1, n2):
+    from .. import impl as _i
+    e1 = _i.YP()
+    e2 = e1 if mode == 'after-clear' else _i.YP()
+    x, y = e1.variable(), e1.variable()
+
+    def args(yp):
+        return {'q(X)': [x], 'q(f(X))': [yp.functor('f', [x])], 'q(X,X)': [x, x], 'q([X|Y])': [yp.listpair(x, y)], 'q(X,Y)': [x, y]}[shape]
+    for i in range(n1):
+        e1.assert_fact(e1.atom('filler'), [e1.variable(), e1.atom('k%d' % i)])
+    e1.assert_fact(e1.atom('q'), args(e1))
+    if mode == 'after-clear':
+        e1.clear()
+    for i in range(n2):
+        e2.assert_fact(e2.atom('filler'), [e2.variable(), e2.atom('k%d' % i)])
+    e2.assert_fact(e2.atom('q'), args(e2))
+    # two uses at once, instantiated differently
+    nargs = len(args(e2))
+    a1 = [e2.variable() for _ in range(nargs)]
+    a2 = [e2.variable() for _ in range(nargs)]
+    pairs = 0
+    for _ in e2.query('q', a1):
+        for _ in e2.query('q', a2):
+            va = {'q(X)': e2.atom('a'), 'q(f(X))': e2.functor('f', [e2.atom('a')]), 'q(X,X)': e2.atom('a'), 'q([X|Y])': e2.listpair(e2.atom('a'), e2.ATOM_NIL), 'q(X,Y)': e2.atom('a')}[shape]
+            vb = {'q(X)': e2.atom('b'), 'q(f(X))': e2.functor('f', [e2.atom('b')]), 'q(X,X)': e2.atom('b'), 'q([X|Y])': e2.listpair(e2.atom('b'), e2.ATOM_NIL), 'q(X,Y)': e2.atom('b')}[shape]
+            for _ in _i.engine.unify(a1[0], va):
+                for _ in _i.engine.unify(a2[0], vb):
+                    pairs += 1
+    what = 'the caller\'s variables X, Y asserted as %s (after %d other assertions), then %s and asserted again (after %d other assertions)' % (shape, n1, 'the engine cleared' if mode == 'after-clear' else 'into a second engine', n2)
+    if pairs != 1:
+        return ('lives:two-uses-of-a-fact-not-independent', '%s: q(..A..), q(..B..), A = a, B = b has %d solutions instead of 1' % (what, pairs))
+    if x.get_value() is not x or y.get_value() is not y:
+        return ('lives:caller-variable-bound', '%s: afterwards the caller\'s own variable is bound' % what)
+    return None
+
+
+def run_lives(acc):
+    idx = 0
+    for shape in LIFE_SHAPES:
+        for mode in ('after-clear', 'second-engine'):
+            for n1 in range(3):
+                for n2 in range(3):
+                    idx += 1
+                    acc.n['evaluations'] += 1
+                    acc.n['validated'] += 1
+                    try:
+                        bad = check_lives(shape, mode, n1, n2)
+                    except Exception as e:  # noqa: BLE001
+                        bad = ('lives:raises:' + impl.exc_sig(e), '%s %s %d %d raised %r' % (shape, mode, n1, n2, e))
+                    if bad:
+                        acc.violation(bad[0], ('Lv', idx), {'lives': [shape, mode, n1, n2]}, bad[1], key='lives|%s|%s|%d|%d' % (shape, mode, n1, n2))
+                        continue
+                    acc.n['transitions'] += 6
+                    acc.n['nontrivial'] += 1
+                    acc.outcome(('lives', shape, mode))
+
+
 def run_values(acc):
+    run_lives(acc)
     idx = 0
     for vi, val in enumerate(value_menu()):
         for shape in SHAPES:
@@ -440,6 +505,9 @@ def run_shard(spec):
 
 
 def replay(case):
+    if 'lives' in case:
+        bad = check_lives(*case['lives'])
+        return [bad] if bad else []
     if 'value' in case:
         vi, shape, via = case['value']
         bad = check_value(value_menu()[vi], shape, via)
